@@ -44,7 +44,7 @@ pub mod account {
         r.is_ok() ==> is_key_address(params.address) && params.address.proto != 0,
         r.is_ok() ==> rt_state::<State>(final(rt).state_id@).address == params.address,
         r.is_err() ==> nothing_changed(old(rt), final(rt)),
-        old(rt).validated@.is_none() && old(rt).msg.caller == SYSTEM_ACTOR_ADDR && !is_key_address(params.address) ==> r.is_err() && r->Err_0.code == 16,
+        old(rt).validated@.is_none() && old(rt).msg.caller == SYSTEM_ACTOR_ADDR && !is_key_address(params.address) ==> r.is_err(),
 //@ end
 
 //@ fn actors/account/src/lib.rs Actor::pubkey_address free
@@ -79,7 +79,6 @@ pub mod account {
         // accepts (and ignores) every exported method number — plain value transfers with a method number — and nothing below the range
         r.is_ok() <==> old(rt).validated@.is_none() && method >= FIRST_EXPORTED_METHOD_NUMBER,
         r.is_ok() ==> r->Ok_0.is_none(),
-        old(rt).validated@.is_none() && method < FIRST_EXPORTED_METHOD_NUMBER ==> r->Err_0.code == 22,
         nothing_changed(old(rt), final(rt)),
 //@ end
 }
@@ -100,7 +99,7 @@ pub mod ethaccount {
         /*C11*/ old(rt).msg.caller != SYSTEM_ACTOR_ADDR ==> r.is_err() && *final(rt) == *old(rt),
         // only an actor that lives at an f4 address of the EAM namespace can be an EthAccount; the constructor stores nothing
         r.is_ok() ==> has_eam_address(old(rt).msg.receiver.id),
-        old(rt).validated@.is_none() && old(rt).msg.caller == SYSTEM_ACTOR_ADDR && !has_eam_address(old(rt).msg.receiver.id) ==> r.is_err() && r->Err_0.code == 16,
+        old(rt).validated@.is_none() && old(rt).msg.caller == SYSTEM_ACTOR_ADDR && !has_eam_address(old(rt).msg.receiver.id) ==> r.is_err(),
         nothing_changed(old(rt), final(rt)),
 //@ end
 
@@ -109,7 +108,6 @@ pub mod ethaccount {
         /*C11*/ r.is_ok() ==> validated_once(old(rt), final(rt), CallerSet::Any),
         r.is_ok() <==> old(rt).validated@.is_none() && method >= FIRST_EXPORTED_METHOD_NUMBER,
         r.is_ok() ==> r->Ok_0.is_none(),
-        old(rt).validated@.is_none() && method < FIRST_EXPORTED_METHOD_NUMBER ==> r->Err_0.code == 22,
         nothing_changed(old(rt), final(rt)),
 //@ end
 }
@@ -127,7 +125,6 @@ pub mod system {
 //@ fn actors/system/src/lib.rs State::new sigsub0="< BS : Blockstore >=>" sigsub1="store : & BS=>store : &Store"
     ensures
         r.is_ok() ==> empty_registry(r->Ok_0.builtin_actors),
-        r.is_err() ==> r->Err_0.code == 20,
 //@ end
 //@ fn actors/system/src/lib.rs Actor::constructor free as=system_constructor
     ensures
@@ -172,7 +169,7 @@ pub mod reward {
         /*C11*/ old(rt).msg.caller != SYSTEM_ACTOR_ADDR ==> r.is_err() && *final(rt) == *old(rt),
         // the genesis state is the one computed from the given realized power, which must be present
         r.is_ok() ==> params.power.is_some() && rt_state::<State>(final(rt).state_id@) == reward_state_new(params.power->Some_0.0@),
-        old(rt).validated@.is_none() && old(rt).msg.caller == SYSTEM_ACTOR_ADDR && params.power.is_none() ==> r.is_err() && r->Err_0.code == 16,
+        old(rt).validated@.is_none() && old(rt).msg.caller == SYSTEM_ACTOR_ADDR && params.power.is_none() ==> r.is_err(),
         r.is_err() ==> nothing_changed(old(rt), final(rt)),
 //@ end
 
@@ -260,7 +257,6 @@ pub mod datacap {
 //@ fn actors/datacap/src/state.rs State::new sigsub0="< BS : Blockstore >=>" sigsub1="store : & BS=>store : &Store"
     ensures
         r.is_ok() ==> r->Ok_0.governor == governor && r->Ok_0.token.log@.len() == 0,
-        r.is_err() ==> r->Err_0.code == 20,
 //@ end
 
 //@ fn actors/datacap/src/lib.rs as_token sigsub0="Rt :: Blockstore=>Store"
@@ -455,7 +451,7 @@ pub mod datacap {
     ensures
         final(st).governor == old(st).governor,
         r.is_ok() ==> to_address == old(st).governor || *from == old(st).governor,
-        !(to_address == old(st).governor || *from == old(st).governor) ==> r.is_err() && r->Err_0.code == 18 && *final(st) == *old(st),
+        !(to_address == old(st).governor || *from == old(st).governor) ==> r.is_err() && *final(st) == *old(st),
         r.is_ok() ==> final(st).token.log@ == old(st).token.log@.push(TokenOp::Transfer { from: *from, to: to_address, amount: params.amount@, operator_data: params.operator_data }),
 //@ end
 //@ fn actors/datacap/src/lib.rs Actor::transfer free tx0="State;transfer_tx0;&mut __vx_st, rt, from, to_address, &params"
@@ -475,7 +471,7 @@ pub mod datacap {
     ensures
         final(st).governor == old(st).governor,
         r.is_ok() ==> to_address == old(st).governor,
-        to_address != old(st).governor ==> r.is_err() && r->Err_0.code == 18 && *final(st) == *old(st),
+        to_address != old(st).governor ==> r.is_err() && *final(st) == *old(st),
         r.is_ok() ==> final(st).token.log@ == old(st).token.log@.push(TokenOp::TransferFrom { operator, from, to: to_address, amount: params.amount@, operator_data: params.operator_data }),
 //@ end
 //@ fn actors/datacap/src/lib.rs Actor::transfer_from free tx0="State;transfer_from_tx0;&mut __vx_st, rt, operator, from, to_address, &params"
